@@ -75,7 +75,7 @@ CLAIMED = {
   "ref": "DESIGN.md 5-C17"},
  "C18": {
   "text": "Contracts on the real text of verify_tx, resolve_tx (its cache closure lambda-lifted), ContextualTransactionVerifier::{new, verify} (verify.rs): Ok(cycles) only with structural verification, pairwise distinct inputs, every input and dep resolved to a cell the client's provider reported live, since / capacity / script verification at the stored tip, cycles = what the scripts consumed. And contracts on the real text of send_transaction, estimate_cycles, get_transaction (pending branch) and PendingTxs::{new, push, get}: a transaction enters the pending pool only with the evidence that verify_tx accepted exactly it with exactly those cycles; estimate_cycles reports those cycles; the pool never exceeds its limit, the newest entry is the pushed transaction with an empty announced-peer set and the oldest entry is the one evicted.",
-  "note": "The five verifiers and the cell provider are dependency / storage code (evidence-producing shims); the once-per-peer broadcast function is outside the Verus subset and not covered.",
+  "note": "The five verifiers and the cell provider are dependency / storage code (evidence-producing shims); the per-entry body of the once-per-peer broadcast (PendingTxs::fetch_transaction_hashes_for_broadcast: a hash is handed out for a peer iff the peer was not yet in the entry's announced set, and afterwards it is) is under contract, the iter_mut().filter_map().collect() around it is not.",
   "ref": "DESIGN.md 5-C18"},
 }
 
